@@ -24,7 +24,6 @@ ASSUMPTIONS = [
     'every IPv4 announce of a collection has the next hop of the NEXT_HOP attribute of that collection (as the RIB builds them: grouping is by attribute set); no Empty NLRI; no IPv4 NLRI with an IPv6 next hop (RFC 8950 not negotiated)',
     'no link-local next-hop capability: the MP next hop is the 4 or 16 address bytes',
     'a request is a SET of routes: a prefix (with its path id) is requested at most once per AFI in the announces and at most once in the withdraws of a collection',
-    'ADD-PATH is not generated together with ipv4 multicast (on the unchanged tree that would only show finding family-changed a second way)',
 ]
 
 V4_MASKS = [0, 1, 7, 8, 9, 15, 16, 17, 23, 24, 25, 31, 32]
@@ -76,9 +75,7 @@ def gen_nlris(rng, fam: int, count: int, addpath: bool, seen: set, size_bias: st
 
 def gen_case(rng, tier: str, big_ok: bool) -> dict:
     fams = list(weighted(rng, FAM_SETS))
-    # ADD-PATH is not combined with ipv4 multicast: on the unchanged code an ipv4 multicast NLRI lands in the
-    # classic fields (finding family-changed), where the peer then expects a path id — the same defect seen twice
-    addpath = int(rng.random() < 0.3 and 2 not in fams)
+    addpath = int(rng.random() < 0.3)
     M = rng.choice([4096, 4096, 65535])
     ibgp = int(rng.random() < 0.5)
     cfg, n, neg, _ = pr.get_session(tuple(fams), bool(addpath), M, bool(ibgp))
@@ -248,6 +245,7 @@ def features(case: dict, res: dict) -> list[str]:
     n = len(res['lens'])
     f.append('msgs:0' if n == 0 else 'msgs:1' if n == 1 else 'msgs:2-3' if n <= 3 else 'msgs:4+')
     f.append('status:' + res['status'])
+    f.append('nlris_left_out:' + ('0' if res['logged'] == 0 else '1' if res['logged'] == 1 else '2+'))
     c = res['canon']
     if any(' r=- ' not in x and ' r=' in x for x in c):
         f.append('has:mp_reach')
@@ -276,7 +274,7 @@ def run(ctx: Ctx) -> None:
     ctx.rule = (
         'one case = one real UpdateCollection (IPv4/IPv6 unicast+multicast INET NLRIs, masks incl. every byte-length boundary, 0-4 MP next hops, with/without ADD-PATH, '
         'attribute block tuned with communities + a generic attribute so that msg_size lands on chosen values around 0..120, 254..263 and the free range, on 4096 and 65535 sessions, include_withdraw True/False) '
-        'run through the real messages() and decoded message by message; a case is non-trivial when at least one message was emitted or the packer gave up (noroom / raised / toolong) '
+        'run through the real messages() and decoded message by message; a case is non-trivial when at least one message was emitted or at least one NLRI was left out for lack of room '
         'with a non-empty negotiated request; distinct = distinct (session shape, attribute lengths, sizes and classification of every NLRI in order) i.e. the distinct model input lines'
     )
     corpus = load_corpus()
@@ -311,9 +309,9 @@ def run(ctx: Ctx) -> None:
                         small = shrink_disagreement(case)
                         r2 = pr.run_impl(small)
                         m2 = pr.model_out([r2['line']])[0]
-                        ctx.disagreements.append(Disagreement('pack', {'case': brief(small), 'line': r2['line'][:600]}, [m2['status']] + m2['canon'][:6], [r2['status']] + r2['canon'][:6]))
+                        ctx.disagreements.append(Disagreement('pack', {'case': brief(small), 'line': r2['line'][:600]}, [m2['status'], m2['logged']] + m2['canon'][:6], [r2['status'], r2['logged']] + r2['canon'][:6]))
                     else:
-                        ctx.disagreements.append(Disagreement('pack', {'case': brief(case), 'line': res['line'][:600]}, [mo['status']] + mo['canon'][:6], [res['status']] + res['canon'][:6]))
+                        ctx.disagreements.append(Disagreement('pack', {'case': brief(case), 'line': res['line'][:600]}, [mo['status'], mo['logged']] + mo['canon'][:6], [res['status'], res['logged']] + res['canon'][:6]))
         pending.clear()
 
     # the driver refuses what it cannot parse (never defaults)
@@ -361,24 +359,12 @@ def run(ctx: Ctx) -> None:
         ctx.count('nlris:' + ('0' if nn == 0 else '1-5' if nn <= 5 else '6-50' if nn <= 50 else '51-500' if nn <= 500 else '>500'))
         nhs = len({(a[0], a[4]) for a in case['anns'] if a[0] in (3, 4)})
         ctx.count('mp_nexthops:%d' % min(nhs, 4))
-        if res['lens'] or res['status'] != 'ok':
+        if res['lens'] or res['status'] != 'ok' or res['logged']:
             ctx.nontrivial(res['line'])
         ctx.sample({'case': brief(case), 'status': res['status'], 'messages': res['canon'][:4], 'msg_size': ms}, cap=4)
         pending.append((case, res, origin, entry))
         if len(pending) >= 100:
             flush()
-        # c09_partial says: a collection of one kind (as the RIB builds them) whose NLRIs all fit alone is packed
-        # without any failure. Checked here on the implementation, with the oracle's own notion of "fits".
-        neg_f = set(case['fams'])
-        v4n = [x for x in case['anns'] + (case['wds'] if case['iw'] else []) if x[0] in neg_f and x[0] in (1, 2)]
-        mpa = [x for x in case['anns'] if x[0] in neg_f and x[0] in (3, 4)]
-        mpw = [x for x in case['wds'] if x[0] in neg_f and x[0] in (3, 4)] if case['iw'] else []
-        rib_shaped = (not mpa and not mpw) or (not v4n and (not mpa or not mpw))
-        if rib_shaped and res['all_fit'] and (v4n or mpa or mpw):
-            ctx.count('rib-shaped-and-every-nlri-fits')
-            unexpected = [c for c in canons if c[0] != 'family-changed']
-            if unexpected or res['status'] != 'ok':
-                ctx.disagreements.append(Disagreement('theorem-c09_partial-vs-implementation', {'case': brief(case)}, 'status ok, no oracle failure', [res['status']] + unexpected))
         for canon in canons:
             key = json.dumps(canon)
             ctx.count('oracle-fail:' + '/'.join(map(str, canon)))
@@ -412,7 +398,7 @@ def agree(res: dict, mo: dict) -> bool:
     if undec or res['status'] == 'error':
         # the partition cannot be read off the wire (the oracle reports that); lengths still must agree
         return [int(x.split(' ')[0]) for x in mo['canon']] == res['lens']
-    return (res['status'], res['canon']) == (mo['status'], mo['canon'])
+    return (res['status'], res['logged'], res['canon']) == (mo['status'], mo['logged'], mo['canon'])
 
 
 def shrink_disagreement(case: dict) -> dict:
@@ -456,12 +442,12 @@ def replay(path: str) -> int:
     res, canons = evaluate(case)
     print('case     :', json.dumps(brief(case)))
     print('msg_size :', case['M'], ' attribute block:', res['attr_def'], '/', res['attr_nodef'], ' room for NLRIs:', res['msg_size'])
-    print('status   :', res['status'], res['error'])
+    print('status   :', res['status'], res['error'], ' log.critical calls:', res['logged'])
     for c in res['canon'][:20]:
         print('message  :', c)
     try:
         m = pr.model_out([res['line']])[0]
-        print('model    :', m['status'], m['canon'][:20])
+        print('model    :', m['model_status'], 'logged', m['logged'], m['canon'][:20])
     except Exception as e:
         print('model    : (driver not available)', e)
     print('oracle   :', res['verdict'][:10])
